@@ -574,7 +574,11 @@ impl<'r, 'c, 's, W: Write> DatumSerializer<'r, 'c, 's, W> {
 				let buf = match decimal.repr {
 					DecimalRepr::Bytes => {
 						let mut start = 0;
-						while start < bytes.len() - 1 && bytes[start] == 0 {
+						// Leading zero bytes can only be dropped as long as the sign bit of
+						// what remains stays clear (two's complement)
+						while start < bytes.len() - 1
+							&& bytes[start] == 0 && bytes[start + 1] & 0x80 == 0
+						{
 							start += 1;
 						}
 						let buf = &bytes[start..];
